@@ -26,7 +26,9 @@ package main
 // PARENT (TestVerifSys): one scenario per line of $VERIF_IN:
 //   sys <id> <step>*
 //   N:<delay>            start the node (first start bootstraps)            F  post the network config
-//   C:<k>                client k: create session, NICK, USER, JOIN #verif
+//   C:<k>[:<scheme>]     client k: create session, NICK, USER, JOIN #verif.  scheme = where its client message ids live (consecutive
+//                        posts differ by 1): 0 small numbers (steps 1+k), 1 from 2^63+2^62+k*2^40 (top bit set), 2 from 2^53-5 (across
+//                        the float64 integer limit), 3 from 2^64-1-200000 (towards the largest uint64)
 //   M:<k>:<n>            client k posts its next n numbered PRIVMSGs
 //   LA:<k>               client k posts one message whose first 200 is dropped (lost answer) and retried
 //   KA:<k>:<delay>       client k posts one message; SIGKILL the moment the 200 arrives; restart
@@ -571,6 +573,8 @@ type vsClient struct {
 	Nick     string     `json:"nick"`
 	Created  bool       `json:"created"`
 	Joined   bool       `json:"joined"`
+	Scheme   int        `json:"cmid_scheme"`
+	Stalled  bool       `json:"final_pong_missing"`
 	Dead     string     `json:"dead,omitempty"`
 	Refused  bool       `json:"refused_while_replaying"`
 	Acks     []vsAck    `json:"posts"`
@@ -666,7 +670,11 @@ type vsPostOpt struct {
 // post sends one IRC line with a fresh client message id and repeats it, with the same id,
 // until it is answered with 200.  Returns the record of the attempts.
 func (c *vsCase) post(cl *vsClient, data string, opt vsPostOpt) vsAck {
-	cl.cmid += 1 + uint64(cl.K)
+	if cl.Scheme == 0 {
+		cl.cmid += 1 + uint64(cl.K)
+	} else {
+		cl.cmid++
+	}
 	cmid := cl.cmid
 	body, _ := json.Marshal(struct {
 		Data            string
@@ -766,8 +774,16 @@ func (c *vsCase) privmsg(cl *vsClient, opt vsPostOpt) bool {
 	return true
 }
 
-func (c *vsCase) createClient(k int) {
-	cl := &vsClient{K: k, Nick: fmt.Sprintf("cl%d", k), Acks: []vsAck{}, Live: [][]string{}, Full: [][]string{}, LiveRead: [][]string{}, LiveIds: []uint64{}, FullIds: []uint64{}, cmid: uint64(1000 * (k + 1))}
+func (c *vsCase) createClient(k, scheme int) {
+	cl := &vsClient{K: k, Nick: fmt.Sprintf("cl%d", k), Acks: []vsAck{}, Live: [][]string{}, Full: [][]string{}, LiveRead: [][]string{}, LiveIds: []uint64{}, FullIds: []uint64{}, cmid: uint64(1000 * (k + 1)), Scheme: scheme}
+	switch scheme {
+	case 1:
+		cl.cmid = 1<<63 + 1<<62 + uint64(k)<<40 + 12345
+	case 2:
+		cl.cmid = 1<<53 - 5
+	case 3:
+		cl.cmid = ^uint64(0) - 200000
+	}
 	c.clients[k] = cl
 	c.order = append(c.order, k)
 	for attempt := 0; attempt < 50 && !cl.Created; attempt++ {
@@ -1123,7 +1139,7 @@ func (c *vsCase) liveFinish(wait bool) {
 		wg.Add(1)
 		go func(cl *vsClient) {
 			defer wg.Done()
-			if wait && cl.Dead == "" {
+			if wait && cl.Dead == "" && !cl.Stalled {
 				token := fmt.Sprintf("live-final-%d", cl.K)
 				cl.liveMu.Lock()
 				cl.liveFinal = token
@@ -1137,6 +1153,7 @@ func (c *vsCase) liveFinish(wait bool) {
 					case <-cl.liveExited:
 					case <-deadline.C:
 						c.liveNote(cl, "the PONG to the final PING did not arrive within 15 s")
+						cl.Stalled = true // reported by the monitor; no further waiting for this session
 					case <-c.ctx.Done():
 					}
 					deadline.Stop()
@@ -1234,7 +1251,7 @@ func (c *vsCase) fetchAll(full bool) {
 	var wg sync.WaitGroup
 	for _, k := range c.order {
 		cl := c.clients[k]
-		if cl.Dead != "" || !cl.Joined {
+		if cl.Dead != "" || !cl.Joined || cl.Stalled {
 			continue
 		}
 		wg.Add(1)
@@ -1256,6 +1273,10 @@ func (c *vsCase) fetchAll(full bool) {
 			cl.Unsorted += uns
 			if err != nil {
 				c.fail("client %d: incremental fetch from %s: %v", cl.K, ls, err)
+				if strings.Contains(err.Error(), "before the PONG") {
+					c.liveNote(cl, "the PONG to the acknowledged PING "+token+" did not arrive within 30 s")
+					cl.Stalled = true
+				}
 				return
 			}
 			cl.Fetches++
@@ -1511,7 +1532,7 @@ func (c *vsCase) step(tok string) bool {
 			return false
 		}
 	case "C":
-		c.createClient(vsAtoi(arg(1)))
+		c.createClient(vsAtoi(arg(1)), vsAtoi(arg(2)))
 	case "X":
 		if cl := c.clients[0]; cl != nil && cl.Dead == "" {
 			cl.mu.Lock()
